@@ -5,6 +5,7 @@ import Proofs.C12Vint
 import Proofs.C12Nest
 import Proofs.C12Decode
 import Proofs.C12Hist
+import Proofs.C12VintDec
 import Model.MarshalInterp
 /-!
 # C12 — encoded values are the CQL specification's encoding, byte for byte; conformant encodings decode
@@ -529,7 +530,8 @@ example : marshalScalar .inet (.ip [0,0,0,0,0,0,0,0,0,0,255,255,10,0,0,1]) = .ok
   simp [marshalScalar, interpScalar, this]
 
 /-- CONFORMANCE AT EVERY NESTING DEPTH, EVERY PROTOCOL VERSION (both collection framings), by induction on the Go value: for every type tree built from
-    the 21 scalar types with list, set, map and non-empty tuples (`nest`), every Go value all of whose parts are values
+    the 21 scalar types with list, set, map, non-empty tuples AND user defined types (`nest`: a UDT has at least one
+    field, no field name twice — `nodupB`, what CREATE TYPE enforces — and as many names as types), every Go value all of whose parts are values
     of their Go types (`wf`), documented for that column (`documented`) and outside the exact deviation predicate
     (`excluded`, the open findings): gocql.Marshal returns
       * the nil slice exactly when the documented meaning is null,
@@ -568,6 +570,43 @@ example : ∃ c, interp (.list (.tuple [.text, .int])) (.slice false [.struct [.
   obtain ⟨c, hc, _, hs⟩ := (C12_marshal_conforms 4 _ _ (by decide)
     (by simp [C12Nest.wf, C12Nest.wfAll, C12Nest.wfScalar]) (by decide) (by decide)).2.1 _ hm (by decide)
   exact ⟨c, hc, hs⟩
+
+/-- the well-formedness of a UDT type is decidable and real definitions meet it; a definition with a field name twice
+    does not -/
+example : C12Nest.nest (.udt ["lat", "lon", "alt"] [.double, .double, .list .int]) = true ∧
+    C12Nest.nest (.udt ["a", "a"] [.int, .bigint]) = false ∧ C12Nest.nest (.udt [] []) = false := by decide
+
+/-- non-vacuity for UDT columns: the struct {b:"x", a:5} bound to the type (a int, b text) — fields in the order of
+    the TYPE, each through its own name -/
+example : ∃ c, interp (.udt ["a", "b"] [.int, .text]) (.udtstruct ["b", "a"] [.str false [120], .int .int false 5]) = some c ∧
+    specEnc 4 (.udt ["a", "b"] [.int, .text]) c = some [0, 0, 0, 4, 0, 0, 0, 5, 0, 0, 0, 1, 120] := by
+  have hm : marshal 4 (.udt ["a", "b"] [.int, .text]) (.udtstruct ["b", "a"] [.str false [120], .int .int false 5]) =
+      .ok (some [0, 0, 0, 4, 0, 0, 0, 5, 0, 0, 0, 1, 120]) := by
+    have h5 : encInt (toS 32 5) = [0, 0, 0, 5] := by decide
+    have h4 : encInt (toS 32 4) = [0, 0, 0, 4] := by decide
+    have h1 : encInt (toS 32 1) = [0, 0, 0, 1] := by decide
+    simp [marshal, udtAssemble, marshalNamed, lookupIdx, seqItems, appendBytes, marshalScalar, marshalIntColumn, optM,
+      marshalIntKind, marshalVarcharColumn, h5, h4, h1]
+  obtain ⟨c, hc, _, hs⟩ := (C12_marshal_conforms 4 _ _ (by decide)
+    (by simp [C12Nest.wf, C12Nest.wfAll, C12Nest.wfScalar, IntKind.holds, IntKind.signed, IntKind.bits, leB, ltB])
+    (by decide) (by decide)).2.1 _ hm (by decide)
+  exact ⟨c, hc, hs⟩
+
+/-- the hypothesis "no field name twice" is needed FOR THE MODEL: marshalNamed resolves the column type of a Go entry
+    through the first UDT field of its name, so for the ill-formed type (a int, a bigint) the model writes 4 + 4 bytes
+    where the specification (and, checked with `enc 4 udt 2 a int a bigint us 1 a i int 5`, the real marshalUDT, which
+    uses each field's own type: 4 + 8 bytes) does not.  Outside `nest` model and code differ; such types are never
+    generated (Cassandra refuses them). -/
+theorem C12_cex_udt_duplicate_names :
+    marshal 4 (.udt ["a", "a"] [.int, .bigint]) (.udtstruct ["a"] [.int .int false 5]) =
+      .ok (some [0, 0, 0, 4, 0, 0, 0, 5, 0, 0, 0, 4, 0, 0, 0, 5]) ∧
+    specEnc 4 (.udt ["a", "a"] [.int, .bigint]) (.tuple [.int 5, .int 5]) =
+      some [0, 0, 0, 4, 0, 0, 0, 5, 0, 0, 0, 8, 0, 0, 0, 0, 0, 0, 0, 5] := by
+  refine ⟨?_, by decide⟩
+  have h5 : encInt (toS 32 5) = [0, 0, 0, 5] := by decide
+  have h4 : encInt (toS 32 4) = [0, 0, 0, 4] := by decide
+  simp [marshal, udtAssemble, marshalNamed, lookupIdx, seqItems, appendBytes, marshalScalar, marshalIntColumn, optM,
+    marshalIntKind, h5, h4]
 
 /-- KF-C12-8 also behind a pointer: a `*interface{}` holding nil inside a collection under protocol ≤ 2 is written as a
     zero-length element; the specification has no encoding (no null in the 2-byte framing).  `nullish` (and the
@@ -616,6 +655,50 @@ example : specDec 4 .decimal [0, 0, 0, 2, 128] = some (.decimal (-128) 2) := by
   have h1 : tcDec [128] = -128 := by decide
   have h2 : tcDec [0, 0, 0, 2] = 2 := by decide
   simp [specDec, minimalTC, h1, h2]
+
+theorem toS32_id (x : Int) (h : fitsS 4 x = true) : toS 32 x = x := by
+  simp [fitsS, leB_iff, ltB_iff] at h
+  simp [toS]; omega
+
+/-- duration, converse direction — closes the chain source text → model → specification for duration: marshal.go's
+    decVint (generated code = `Marshal.decVint`: GenTie.C12.decVint) reads, for EVERY byte string, exactly what the
+    specification's vint reader reads (first byte's leading one bits = number of extra bytes, big-endian payload,
+    zig-zag); hence every specification-conformant duration decodes into a gocql.Duration to the value the
+    specification decoder reads.  (Encode direction: C12_vint, C12_duration_conforms, GenTie.C12.encVint.) -/
+theorem C12_duration_decode_conforms (p : Nat) (isNil : Bool) :
+    (∀ data : Bytes, decVint data = specReadVint data) ∧
+    (∀ (b : Bytes) (m d n : Int), specDec p .duration b = some (.duration m d n) →
+      unmarshalScalar .duration isNil b .cqldur = .ok (.cqldur m d n)) := by
+  refine ⟨C12VintDec.decVint_spec, fun b m d n h => ?_⟩
+  have e : unmarshalScalar .duration isNil b .cqldur =
+      (if b = [] then URes.ok (.cqldur 0 0 0) else
+        (match decVints b with
+         | some (m, dd, n) => URes.ok (.cqldur m dd n)
+         | none => URes.err)) := rfl
+  cases h1 : specReadVint b with
+  | none => simp [specDec, h1] at h
+  | some x1 =>
+    obtain ⟨m', r1⟩ := x1
+    cases h2 : specReadVint r1 with
+    | none => simp [specDec, h1, h2] at h
+    | some x2 =>
+      obtain ⟨d', r2⟩ := x2
+      cases h3 : specReadVint r2 with
+      | none => simp [specDec, h1, h2, h3] at h
+      | some x3 =>
+        obtain ⟨n', r3⟩ := x3
+        simp [specDec, h1, h2, h3] at h
+        obtain ⟨⟨_, hm, hd, _⟩, rfl, rfl, rfl⟩ := h
+        have hne : b ≠ [] := by
+          intro hb; subst hb; simp [specReadVint, specReadUVint] at h1
+        have hv : decVints b = some (m', d', n') := by
+          simp [decVints, C12VintDec.decVint_spec, h1, h2, h3, toS32_id _ hm, toS32_id _ hd]
+        rw [e, if_neg hne, hv]
+
+/-- non-vacuity: the one-byte vint 02 is 1, the two-byte vint 80 81 is −65, rest untouched -/
+example : decVint [2, 7] = some (1, [7]) ∧ decVint [0x80, 0x81, 9] = some (-65, [9]) := by
+  rw [(C12_duration_decode_conforms 4 false).1, (C12_duration_decode_conforms 4 false).1]
+  decide
 
 /-! ## histories inside one process: the same Go type marshalled for several type descriptions -/
 
